@@ -81,6 +81,16 @@ func (p *Program) intrinsicFor(fn *ssa.Function) (intrinsicFn, bool) {
 			return in, true
 		}
 	}
+	// expr-lang option constructors: opaque values
+	if strings.HasPrefix(name, "github.com/expr-lang/expr.") && fn.Signature.Results().Len() == 1 {
+		if isNamed(fn.Signature.Results().At(0).Type(), "github.com/expr-lang/expr", "Option") {
+			f := intrinsicFn(func(e *Exec, fn *ssa.Function, args []Value, caller *Frame) Value {
+				return NativeV{"expr.Option"}
+			})
+			p.intrCache.Store(fn, f)
+			return f, true
+		}
+	}
 	// package-level no-op prefixes (logging)
 	for _, pre := range noopPrefixes {
 		if strings.HasPrefix(name, pre) {
@@ -303,18 +313,16 @@ func init() {
 	}
 
 	// ---- expr-lang: not encodable ----
-	intrinsics["github.com/rulego/streamsql/condition.NewExprCondition"] = func(e *Exec, fn *ssa.Function, a []Value, c *Frame) Value {
-		alt := fn.Pkg.Func("VerifNewFastCondition")
-		if alt == nil {
-			e.unsupported("condition.NewExprCondition needs harness/condition/fastcond.go in the overlay")
-		}
-		return e.runBody(alt, a)
+	// NewExprCondition itself is interpreted from its real body; only the expr-lang calls inside it are
+	// stubbed: options are opaque, Compile yields a nil program (any evaluation that reaches expr.Run is
+	// cut and counted).
+	intrinsics["github.com/expr-lang/expr.Compile"] = func(e *Exec, fn *ssa.Function, a []Value, c *Frame) Value {
+		return TupleV{PtrV{}, IfaceV{}}
 	}
 	cutExpr := func(e *Exec, fn *ssa.Function, a []Value, c *Frame) Value {
 		panic(pathEnd{"cut", "expr-lang " + fn.Name() + " (general expression engine is outside the encodable code)"})
 	}
 	intrinsics["github.com/expr-lang/expr.Run"] = cutExpr
-	intrinsics["github.com/expr-lang/expr.Compile"] = cutExpr
 	intrinsics["github.com/expr-lang/expr.Eval"] = cutExpr
 	intrinsics["(*github.com/expr-lang/expr/vm.VM).Run"] = cutExpr
 
